@@ -35,14 +35,7 @@ class _TooMany(Exception):
 
 
 def _client(maxr):
-    c = GeminiClient.__new__(GeminiClient)
-    c.max_redirects = maxr
-    c.timeout = 1.0
-    c.tofu_db = None
-    c.trust_on_first_use = False
-    c.verify_ssl = False
-    c.ssl_context = None
-    return c
+    return GeminiClient(timeout=1.0, max_redirects=maxr, verify_ssl=False, trust_on_first_use=False)
 
 
 def graph(nxt: List[int], maxr: int, follow: bool) -> bool:
